@@ -6,6 +6,7 @@ package main
 // identifier was returned and at the end, and the identifier is loaded from it.
 
 import (
+	"math"
 	"bufio"
 	"context"
 	"fmt"
@@ -24,7 +25,7 @@ import (
 )
 
 type crashStats struct {
-	Cases, DistinctNontrivial, Ops, Appends, DeniedAppends, Joins, Publishes, Writes, Removes, Returned, Loads, IdenticalBlocks int
+	Cases, DistinctNontrivial, Ops, Appends, DeniedAppends, Joins, Publishes, Writes, Removes, Returned, Loads, IdenticalBlocks, NegLengths int
 	shapes                                                                                                                    map[string]bool
 }
 
@@ -250,10 +251,26 @@ func runCrash(seed int64, n int, out *bufio.Writer, thorough bool) *crashStats {
 					var nl *ipfslog.IPFSLog
 					var err error
 					ident := ids.Identity("loader")
+					// every spelling of "no limit": no Length at all, -1, and any other negative number
+					var lp *int
+					switch r.Intn(5) {
+					case 1:
+						v := -1
+						lp = &v
+					case 2:
+						v := -2 - r.Intn(1000)
+						lp = &v
+						st.NegLengths++
+					case 3:
+						v := math.MinInt64
+						lp = &v
+						st.NegLengths++
+					}
+					conc := []int{0, 1, 3}[r.Intn(3)]
 					if rt.kind == "mh" {
-						nl, err = ipfslog.NewFromMultihash(ctx, snap, ident, rt.c, &ipfslog.LogOptions{}, &ipfslog.FetchOptions{})
+						nl, err = ipfslog.NewFromMultihash(ctx, snap, ident, rt.c, &ipfslog.LogOptions{}, &ipfslog.FetchOptions{Length: lp, Concurrency: conc})
 					} else {
-						nl, err = ipfslog.NewFromEntryHash(ctx, snap, ident, rt.c, &ipfslog.LogOptions{ID: rt.logID}, &ipfslog.FetchOptions{})
+						nl, err = ipfslog.NewFromEntryHash(ctx, snap, ident, rt.c, &ipfslog.LogOptions{ID: rt.logID}, &ipfslog.FetchOptions{Length: lp, Concurrency: conc})
 					}
 					if err != nil {
 						res = "err"
